@@ -18,5 +18,9 @@ def run(ctx):
                         "every fair-share vector the C09 contract allows (liveness on the complete state graph); its full initial "
                         "clusters are the systematic scenario source for the real scheduler"]
     st_reclaimrules.run_stage(ctx, PREFIXES, thorough=not ctx.quick)
-    n = 160 if ctx.quick else 4000
+    n = 320 if ctx.quick else 5000
     st_cluster.run_stage(ctx, PREFIXES, [("closed", n)], nontrivial_fn=nontrivial)
+
+
+def replay(ctx, obj):
+    st_cluster.replay_stage(ctx, obj, PREFIXES)
